@@ -30,13 +30,13 @@ Definition DecodeSecret (fuel0 : nat) (secret : bytes) : res (bytes * (option er
   let i := 0%Z in
   DecodeSecret_loop1 fuel0 fuel0 secret i (fun (i : Z) =>
   let n := (Z.rem (zlen secret) 8%Z) in
-  let kj2 := fun (secret : bytes) =>
+  let kj1 := fun (secret : bytes) =>
   let secret := (to_upper_u secret) in
   Val (b32_decode_go secret) in
   if (negb (Z.eqb n 0%Z)) then (do t3 <- str_repeat (s2b "=") (wrap_int64 (Z.sub 8%Z n));
   let secret := (secret ++ t3) in
-  kj2 secret)
-  else (kj2 secret)).
+  kj1 secret)
+  else (kj1 secret)).
 
 Definition unsafeString (b : bytes) : res bytes := Val b.
 
@@ -177,10 +177,10 @@ Definition GenerateHOTP (fuel0 : nat) (junk_rfc4226BufPool : bytes) (secret : by
   kj1 param_)
   else (kj1 param_).
 
-Fixpoint ValidateHOTP_loop2 (fuel : nat) (fuel0 : nat) (junk_rfc4226BufPool : bytes) (skew : Z) (counter : N) (code : bytes) (secretBuf : bytes) (param_ : (option param)) (i : Z) (kx : Z -> res (bool * (option err))) {struct fuel} : res (bool * (option err)) :=
+Fixpoint ValidateHOTP_loop1 (fuel : nat) (fuel0 : nat) (junk_rfc4226BufPool : bytes) (skew : Z) (counter : N) (code : bytes) (secretBuf : bytes) (param_ : (option param)) (i : Z) (kx : Z -> res (bool * (option err))) {struct fuel} : res (bool * (option err)) :=
   match fuel with O => OutOfFuel | S fuel =>
   if (Z.leb i skew) then (let c := 0%N in
-  let kj3 := fun (c : N) =>
+  let kj2 := fun (c : N) =>
   do t4 <- deref param_;
   do t5 <- deref param_;
   do t6 <- validateRFC4226 fuel0 junk_rfc4226BufPool code secretBuf c (p_digits t4) (p_alg t5);
@@ -188,14 +188,14 @@ Fixpoint ValidateHOTP_loop2 (fuel : nat) (fuel0 : nat) (junk_rfc4226BufPool : by
   if ((negb (is_some err__2)) && valid) then (Val (true, None))
   else
   let i := (wrap_int64 (Z.add i 1%Z)) in
-  ValidateHOTP_loop2 fuel fuel0 junk_rfc4226BufPool skew counter code secretBuf param_ i kx in
+  ValidateHOTP_loop1 fuel fuel0 junk_rfc4226BufPool skew counter code secretBuf param_ i kx in
   if (Z.ltb i 0%Z) then (if (N.ltb counter (of_int64 (wrap_int64 (Z.opp i)))) then (let i := (wrap_int64 (Z.add i 1%Z)) in
-  ValidateHOTP_loop2 fuel fuel0 junk_rfc4226BufPool skew counter code secretBuf param_ i kx)
+  ValidateHOTP_loop1 fuel fuel0 junk_rfc4226BufPool skew counter code secretBuf param_ i kx)
   else
   let c := (usub 64%N counter (of_int64 (wrap_int64 (Z.opp i)))) in
-  kj3 c)
+  kj2 c)
   else (let c := (wrap64 (N.add counter (of_int64 i))) in
-  kj3 c))
+  kj2 c))
   else kx i
   end.
 
@@ -211,7 +211,7 @@ Definition ValidateHOTP (fuel0 : nat) (junk_rfc4226BufPool : bytes) (secret : by
   if (is_some err_) then (Val (false, err_))
   else
   let i := (wrap_int64 (Z.opp skew)) in
-  ValidateHOTP_loop2 fuel0 fuel0 junk_rfc4226BufPool skew counter code secretBuf param_ i (fun (i : Z) =>
+  ValidateHOTP_loop1 fuel0 fuel0 junk_rfc4226BufPool skew counter code secretBuf param_ i (fun (i : Z) =>
   Val (false, (Some (ESent ErrInvalidCode)))) in
   if (negb (is_some param_)) then (do t7 <- deref g_DefaultHOTPParam;
   let def := t7 in
@@ -242,7 +242,7 @@ Definition GenerateTOTP (fuel0 : nat) (junk_rfc4226BufPool : bytes) (secret : by
   kj1 param_)
   else (kj1 param_).
 
-Fixpoint ValidateTOTP_loop3 (fuel : nat) (fuel0 : nat) (junk_rfc4226BufPool : bytes) (skew : N) (code : bytes) (secretBuf : bytes) (counter : N) (param_ : (option param)) (i : Z) (kx : Z -> res (bool * (option err))) {struct fuel} : res (bool * (option err)) :=
+Fixpoint ValidateTOTP_loop1 (fuel : nat) (fuel0 : nat) (junk_rfc4226BufPool : bytes) (skew : N) (code : bytes) (secretBuf : bytes) (counter : N) (param_ : (option param)) (i : Z) (kx : Z -> res (bool * (option err))) {struct fuel} : res (bool * (option err)) :=
   match fuel with O => OutOfFuel | S fuel =>
   if (Z.leb i (to_int64 skew)) then (do t6 <- deref param_;
   do t7 <- deref param_;
@@ -251,7 +251,7 @@ Fixpoint ValidateTOTP_loop3 (fuel : nat) (fuel0 : nat) (junk_rfc4226BufPool : by
   if ((negb (is_some err__2)) && valid) then (Val (true, None))
   else
   let i := (wrap_int64 (Z.add i 1%Z)) in
-  ValidateTOTP_loop3 fuel fuel0 junk_rfc4226BufPool skew code secretBuf counter param_ i kx)
+  ValidateTOTP_loop1 fuel fuel0 junk_rfc4226BufPool skew code secretBuf counter param_ i kx)
   else kx i
   end.
 
@@ -272,7 +272,7 @@ Definition ValidateTOTP (fuel0 : nat) (junk_rfc4226BufPool : bytes) (secret : by
   do t5 <- TimeCounterFunc t period;
   let counter := t5 in
   let i := (wrap_int64 (Z.opp (to_int64 skew))) in
-  ValidateTOTP_loop3 fuel0 fuel0 junk_rfc4226BufPool skew code secretBuf counter param_ i (fun (i : Z) =>
+  ValidateTOTP_loop1 fuel0 fuel0 junk_rfc4226BufPool skew code secretBuf counter param_ i (fun (i : Z) =>
   Val (false, (Some (ESent ErrInvalidCode)))) in
   if (N.eqb period 0%N) then (let period := 30%N in
   kj2 period)
